@@ -152,6 +152,21 @@ CHECKS['C14'] = dict(
     design='5/C14',
 )
 
+CHECKS['C02'] = dict(
+    level='model_checking',
+    text=("Explicit-state search over proof expressions: level 0 = prop1-3, exists_quantifier, loads of 10 module axioms and "
+          "10 library lemmas at pool arguments; each level applies modus_ponens (all pairs), instantiate and dynamic_inst "
+          "(maps of 1-2 metavariables in every key order over a 12-pattern pool incl. notation, binders, pending "
+          "substitutions, constrained metavariables) and exists_generalization. Every expression the toolkit accepts "
+          "becomes a module serialised by the real ProofExp.serialize with optimisation off and on; the real checker's "
+          "verify() and the reference machine must accept and discharge exactly the advertised claim. The shipped modules "
+          "are regenerated and verified too."),
+    note=("Known findings: instantiation producing a redundant pending substitution; instantiation violating a declared "
+          "constraint. Level 2 expands one representative per distinct level-1 conclusion (capped)."),
+    technique='explicit-state search over DSL expressions with the real serializer and the real checker as acceptance oracle',
+    design='5/C02',
+)
+
 NOT_YET = {
 }
 
